@@ -47,26 +47,32 @@ def codec_runs(prefix, suffix="", quick=None, thorough=None, extra_entries=None,
     return runs
 
 PROPS["C03"] = {
-    "claimed": False, "level_text": "tbd", "level_note": "tbd",
-    "runs": codec_runs("ZzC03", quick={"*": {"K": 1}}, thorough={"*": {"K": 2}}),
+    "level_text": "Round trip decode(encode(frame)) == frame on the real encoder+decoder pairs of H264, H265, AV1, VP8, VP9, fragmented (MPEG-4 video/LATM), KLV (plus LPCM, simple audio, MPEG-TS via C06 runs): frame contents fully symbolic, unit lengths symbolic 1..P (P 8-16), 1-3 units, payload limit case-split over its whole small range, K=1 (quick) / 2 (thorough) consecutive frames; 'more packets needed' before the last packet and exact equality at it.",
+    "level_note": 'Preconditions (valid frames) are written in the harnesses and listed in the evidence (e.g. no start code inside NALUs, VP9 header parsable). Outside: default MTU 1450 itself (only the small-limit regime is explored; thresholds are relative to the limit so every aggregation/fragmentation boundary is crossed), MPEG-4 audio generic, MPEG-1 audio/video, AC-3, M-JPEG (not yet carried by the engine), P/N/K beyond the registered values.',
+    "runs": codec_runs("ZzC03", quick={"*": {"K": 1}, "rtpav1": {"K": 1, "N": 3, "P": 8}}, thorough={"*": {"K": 2}, "rtpav1": {"K": 2, "N": 3, "P": 8}}),
 }
 PROPS["C06"] = {
-    "claimed": False, "level_text": "tbd", "level_note": "tbd",
+    "level_text": 'For every encoder listed under C03 plus LPCM, simple audio, MPEG-TS: payload <= PayloadMaxSize (limit symbolic over its small range), sequence numbers +1 modulo 2^16 from a symbolic initial value across K calls (so wraps inside a fragmented frame are covered), SSRC/payload type/version, marker placement, inputs never written (engine write monitor + native copy compare).',
+    "level_note": 'Same bounds and exclusions as C03; smallest workable limits are per codec (H264 3, H265 4, AV1 3, VP8 2, VP9 12) and stated as MLO in the bounds.',
     "runs": codec_runs("ZzC06", quick={"*": {"K": 1}}, thorough={"*": {"K": 2}}),
 }
 PROPS["C07"] = {
-    "claimed": False, "level_text": "tbd", "level_note": "tbd",
+    "level_text": "Inductive resynchronisation: from an ARBITRARY decoder pre-state (all internal fields symbolic within a small shape, constrained only by the accounting invariant) an intact frame A then an intact frame B are fed; B must come back intact exactly once at its last packet (H264: no later than the first packet of the following frame) with only 'more packets needed' before, and the invariant must be re-established. Any loss/duplication/reordering history leaves the decoder in some such state, so one verdict covers fault sequences of every length. H264, H265, AV1, VP8, VP9, fragmented, KLV.",
+    "level_note": 'Trusted: the representation invariant of each decoder (Appendix A of DESIGN.md); pre-state shapes are small (<=2 pending fragments of <=3 bytes, <=1 buffered unit). Outside: MPEG-4 audio, MPEG-1 audio/video, AC-3, M-JPEG; explicit drop/dup/swap enumeration (covered through the inductive state).',
     "runs": codec_runs("ZzC07", quick={"*": {"P": 5}, "rtpvp9": {"P": 14, "MHI": 13}, "rtpklv": {"P": 20, "MHI": 18}}, thorough={"*": {}}),
 }
 PROPS["C08"] = {
-    "claimed": False, "level_text": "tbd", "level_note": "tbd",
+    "level_text": 'Hostile packets: K arbitrary packets (payload 0..P fully symbolic, any header) from Init through the real decoders: no panic, no loop beyond the unwinding bound, returned frames within the documented maximum, returned buffers never written by later calls (write monitor + native compare), accounting invariant after every call; plus one inductive step at the REAL size caps with length-only buffers (VP8, VP9, AV1, fragmented, KLV).',
+    "level_note": 'Outside: M-JPEG, MPEG-4 audio, MPEG-1 audio/video, AC-3 decoders (not yet carried); inductive cap step for H264/H265 (solver timeouts on length-only data, dropped rather than weakened); heap measured as reachable slice lengths.',
     "runs": codec_runs("ZzC08", "Hist", quick={"*": {}, "rtpvp9": {"K": 2, "P": 5}}, thorough={"*": {"K": 3}, "rtpvp9": {"K": 2, "P": 8}},
-                       extra_entries={"rtpklv": ["ZzC08KLVInd"], "rtpfragmented": ["ZzC08FragmentedInd"]}),
+                       extra_entries={"rtpklv": ["ZzC08KLVInd"], "rtpfragmented": ["ZzC08FragmentedInd"], "rtpvp8": ["ZzC08VP8Ind"],
+                                      "rtpvp9": ["ZzC08VP9Ind"], "rtpav1": ["ZzC08AV1Ind"]}),
 }
 
 # ---------------------------------------------------------------- C09
 PROPS["C09"] = {
-    "claimed": False, "level_text": "tbd", "level_note": "tbd",
+    "level_text": "MIKEY: totality on every byte string <= 24 (quick) / 32 (thorough) bytes and marshal/unmarshal idempotence on the accepted set. Session and Transport headers: marshal->unmarshal identity over the header's grammar (ports 0..65535 one at a time, SSRC all 32 bits, TTL/interleaved 8 bits, all profile/protocol/delivery/mode combinations). Parsing determinism of Transport and Range under every map iteration order (engine option -mapperm). Range NPT: millisecond-resolution times round-trip exactly (exact FP for ms <= 255/2047, ideal-arithmetic for ms <= 2^30). Session totality on all strings <= 8/10 bytes.",
+    "level_note": "Trusted: strconv.FormatFloat/ParseFloat('f',-1,64) round-trips float64 exactly (stdlib contract, stubbed as an opaque inverse pair). Outside: RTP-Info, Authenticate/Authorization digest fields, KeyMgmt text wrapper, SMPTE/UTC ranges, session timeout > 99999 (decimal conversion of wide numbers is beyond the solvers), two fully symbolic ports at once.",
     "runs": [
         R("mikey-total", "pkg/mikey", "pkg/mikey", ["ZzC09MikeyTotal"], flags={"concoff": True}, quick_params={"P": 24}, thorough_params={"P": 32}),
         R("session", "pkg/headers", "pkg/headers", ["ZzC09SessionRT", "ZzC09SessionTotal"], flags={"concoff": True, "qtimeout": 120000}, quick_params={"P": 8}, thorough_params={"P": 10}),
@@ -89,12 +95,14 @@ PROPS["C09"] = {
 # ---------------------------------------------------------------- root package kernels
 _EXTRAS = {"pkg/ringbuffer": "extra/ringbuffer", "internal/asyncprocessor": "extra/asyncprocessor"}
 PROPS["C17"] = {
-    "claimed": False, "level_text": "tbd", "level_note": "tbd",
+    "level_text": 'Transport admission only: isTransportSupported / pickFirstSupportedTransport agree with the reference rule (no secure profile without TLS, no plain UDP with TLS, no UDP through tunnels, multicast/UDP listener presence) for every combination of profile, protocol, delivery, TLS, listeners, multicast range and tunnel kind.',
+    "level_note": 'Outside: all cryptography (AES-CM/HMAC), MIKEY<->SRTP context conversion, redirect downgrade check, clear-text absence on the wire.',
     "runs": [R("admission", ".", "root", ["ZzC17Admission"], params={"GOSTUB": 1}, extras=_EXTRAS)],
 }
 _EXTRAS = {"pkg/ringbuffer": "extra/ringbuffer", "internal/asyncprocessor": "extra/asyncprocessor"}
 PROPS["C18"] = {
-    "claimed": False, "level_text": "tbd", "level_note": "tbd",
+    "level_text": 'Start-up validation for ALL 64-bit values of WriteQueueSize and MaxPacketSize (client and server); every RTP write entry point (client, server session, server stream with fan-out) and RTCP (client, server session) with MaxPacketSize and packet sizes symbolic: refused => error and nothing queued, accepted => exactly one buffer <= MaxPacketSize, exact boundary both ways; SRTP/SRTCP sizes with and without MKI through the real size arithmetic and a length model of pion/srtp.',
+    "level_note": 'Trusted: pion/srtp output length = input + 10 (+4 SRTCP index) + len(MKI), contents unconstrained; goroutines/timers not executed (GOSTUB). Outside: multicast writer, server stream RTCP, interleaved frame buffer sizing, what the kernel does.',
     "runs": [
         R("start-validation", ".", "root", ["ZzC18ServerStart", "ZzC18ClientStart"], params={"GOSTUB": 1}, extras=_EXTRAS),
         R("write-paths", ".", "root", ["ZzC18ClientWriteRTP", "ZzC18StreamWriteRTP", "ZzC18SessionWriteRTP", "ZzC18WriteRTCP"], params={"GOSTUB": 1}, extras=_EXTRAS,
@@ -104,26 +112,30 @@ PROPS["C18"] = {
     ],
 }
 PROPS["C01"] = {
-    "claimed": False, "level_text": "tbd", "level_note": "tbd",
+    "level_text": "Data-path kernel only: for an arbitrary RTP packet (all header fields, 0-2 CSRC, payload 0..P symbolic) written through the real clientFormat / serverSessionFormat / serverStreamFormat.writePacketRTP on a minimal object graph (real asyncprocessor + ring buffer, capturing sink), the bytes queued parse back (pion) to the same payload, marker, timestamp, sequence number and payload type with SSRC = the format's announced local SSRC; every active unicast reader of a stream gets the packet exactly once; refused writes reach nobody.",
+    "level_note": "Not covered (stated in DESIGN.md §6/§7): goroutine schedules, sockets, TLS/tunnels, UDP loss, readers joining/leaving, ordering across packets (delegated to C16's FIFO step), SRTP contents, the receive side (fastRTPUnmarshal, listeners). Trusted: engine semantics, pion/rtp Unmarshal as the reference reader.",
     "runs": [
         R("write-paths", ".", "root", ["ZzC18ClientWriteRTP", "ZzC18StreamWriteRTP", "ZzC18SessionWriteRTP"], params={"GOSTUB": 1}, extras=_EXTRAS,
           quick_params={"P": 12, "MAXPS": 36}, thorough_params={"P": 40, "MAXPS": 80, "NR": 3}),
     ],
 }
 PROPS["C19"] = {
-    "claimed": False, "level_text": "tbd", "level_note": "tbd",
+    "level_text": 'UDP source filters on the real listener loops with a harness PacketConn: server: callback runs iff the source (IPv4 / IPv4-mapped / IPv6, all bytes and port symbolic) equals the registered address; client: IP and port filter, any-port latching of the first accepted port and enforcement afterwards (two datagrams), timeout clock untouched by rejected datagrams.',
+    "level_note": 'Outside: author-IP check in Server.run (channels), interleaved session pinning in handleRequestInner, real sockets.',
     "runs": [
         R("udp-filters", ".", "root", ["ZzC19ServerUDPFilter", "ZzC19ClientUDPFilter"], params={"GOSTUB": 1}, extras=_EXTRAS),
     ],
 }
 PROPS["C20"] = {
-    "claimed": False, "level_text": "tbd", "level_note": "tbd",
+    "level_text": "Server-side URL analysis is the inverse of the documented client join: for symbolic path (1..6/10 bytes, any byte but a trailing '/'), symbolic query (0..6/10 bytes) and track 0..9, plus template paths containing trackID= look-alike segments, getPathAndQueryAndTrackID / findMediaByTrackID / getPathAndQuery return exactly path, query and track for the FFmpeg and GStreamer layouts.",
+    "level_note": 'Outside: net/url parsing and escaping, Media.URL / findBaseURL on the client, findMediaByURL, credentials stripping in Request.Marshal.',
     "runs": [R("split", ".", "root", ["ZzC20Split", "ZzC20SplitLookalike"], params={"GOSTUB": 1}, extras=_EXTRAS, quick_params={"PL": 6, "QL": 6}, thorough_params={"PL": 10, "QL": 10})],
 }
 
 # ---------------------------------------------------------------- C04
 PROPS["C04"] = {
-    "claimed": False, "level_text": "tbd", "level_note": "tbd",
+    "level_text": 'Interleaved frames: two frames (channel 0..255, payload symbolic) through real MarshalTo, a chunking reader with every chunk size (P<=1 quick, <=2 thorough) or byte-wise chunks (P 12/40), and real bufio + Unmarshal: same channel and payload. readBytesLimited: never consumes past the limit, fails iff no delimiter within it. base64 stream reader: two padded blocks under every chunking decode to the concatenation.',
+    "level_note": 'Outside: text requests/responses and headers (length limits of header.go/body.go), WebSocket carrier, conn.Conn dispatch, payloads longer than the bounds.',
     "runs": [
         R("frames-allchunks", "pkg/base", "pkg/base", ["ZzC04Frames"], flags={"concoff": True}, quick_params={"P": 1}, thorough_params={"P": 2}),
         R("frames-bytewise", "pkg/base", "pkg/base", ["ZzC04Frames"], flags={"concoff": True}, quick_params={"P": 12, "CHUNK1": 1}, thorough_params={"P": 40, "CHUNK1": 1}),
@@ -135,7 +147,8 @@ PROPS["C04"] = {
 
 # ---------------------------------------------------------------- C10
 PROPS["C10"] = {
-    "claimed": False, "level_text": "tbd", "level_note": "tbd",
+    "level_text": 'Basic scheme only: for symbolic user (1..UL bytes without \':\' and \'"\') and password (0..PL printable bytes including \':\') the real Sender -> Authorization.Marshal -> Unmarshal -> Verify chain accepts; any different password or user, or Basic not being enabled, is rejected.',
+    "level_note": 'Outside (not claimed): Digest MD5/SHA-256 (hashes would be uninterpreted functions; not built), URL matching rules, the 401/close behaviour of ServerConn, client retry.',
     "runs": [
         R("basic", "pkg/auth", "pkg/auth", ["ZzC10Basic"], flags={"concoff": True}, quick_params={"UL": 2, "PL": 3}, thorough_params={"UL": 3, "PL": 4}),
     ],
@@ -190,5 +203,5 @@ NOT_APPLICABLE = {
     "C12": "every API call returning within its timeout, Close leaving no goroutine or socket: scheduling and I/O facts of a 2500-line channel-driven run loop (DESIGN.md §7)",
     "C13": "quantifies over schedules and crash points of real goroutines; no sequential kernel says anything about bounded-time Close or leaked goroutines (DESIGN.md §7)",
 }
-for _p in ["C01","C02","C03","C04","C05","C06","C07","C08","C09","C10","C14","C15","C17","C18","C19","C20"]:
-    NOT_APPLICABLE.setdefault(_p, "check under construction in this session (planned in DESIGN.md §6); not claimed until it runs clean")
+NOT_APPLICABLE["C02"] = "the state-guard kernel of ServerSession.handleRequestInner needs the session/stream/UDP plumbing of the root package as symbolic object graph; not built in this session; request serialisation, timers and session lifetime are goroutine/channel facts outside the engine (DESIGN.md §6 C02)"
+NOT_APPLICABLE["C05"] = "SDP text marshalling/parsing (pion/sdp + the 750-line sdpunmarshaler string state machine) is path-explosive for the symbolic interpreter; the struct-level round trip was not built in this session (DESIGN.md §6 C05)"
